@@ -61,14 +61,31 @@ extern "C" {
     fn bdd_wmc_poly(f: CPtr, w: *mut c_void) -> *mut c_void;
     fn polynomial_len(p: *mut c_void) -> usize;
     fn polynomial_get_coeffs(p: *mut c_void, buf: *mut f64, max_len: usize) -> usize;
+    // the CNF -> dtree -> vtree -> SDD pipeline and the top-down compiler
+    fn literal_new(label: VarLabel, polarity: bool) -> rsdd::repr::Literal;
+    fn cnf_new(clauses: *const CClause, len: usize) -> *mut c_void;
+    fn cnf_min_fill_order(cnf: *mut c_void) -> *mut c_void;
+    fn dtree_from_cnf(cnf: *const c_void, elim: *const c_void) -> *mut c_void;
+    fn vtree_from_dtree(dtree: *const c_void) -> *mut c_void;
+    fn sdd_builder_new(vtree: *mut c_void) -> *mut c_void;
+    fn sdd_builder_compile_cnf(b: *const c_void, cnf: *const c_void) -> *mut c_void;
+    fn sdd_wmc(sdd: *const c_void, w: *const c_void) -> f64;
+    fn ddnnf_builder_new(order: *mut c_void) -> *mut c_void;
+    fn ddnnf_builder_compile_cnf_topdown(b: *const c_void, cnf: *const c_void) -> CPtr;
+}
+
+#[repr(C)]
+struct CClause {
+    vars: *mut rsdd::repr::Literal,
+    len: usize,
 }
 
 const K: usize = 12;
-const OPS: [&str; 19] = [
+const OPS: [&str; 21] = [
     "var", "newvar", "neg", "and", "or", "ite", "compose", "eq", "topvar", "low", "high", "mc", "wmcr", "wmcc",
-    "wmcp", "json", "cnt", "cnf", "xor",
+    "wmcp", "json", "cnt", "cnf", "xor", "sddpipe", "tdpipe",
 ];
-const W: [usize; 19] = [4, 1, 3, 8, 8, 8, 5, 5, 3, 3, 3, 9, 3, 3, 3, 3, 2, 2, 7];
+const W: [usize; 21] = [4, 1, 3, 8, 8, 8, 5, 5, 3, 3, 3, 9, 3, 3, 3, 3, 2, 2, 7, 2, 2];
 
 fn numv(x: f64) -> Value {
     num(x)
@@ -242,6 +259,71 @@ fn segment<'a>(nb: &'a RobddBuilder<'a, AllIteTable<BddPtr<'a>>>, cb: *mut c_voi
                     guarded(|| json!([npool[a].var_safe().unwrap().value(), npool[a].is_true(), npool[a].is_false(), npool[a].is_const()])),
                     cguard(&cctx, || unsafe { json!([bdd_topvar(cpool[a]), bdd_is_true(cpool[a]), bdd_is_false(cpool[a]), bdd_is_const(cpool[a])]) }),
                 ));
+            }
+            "sddpipe" | "tdpipe" => {
+                // stand-alone pipelines through the C ABI on a fresh random CNF: clauses built with literal_new / cnf_new, then
+                //   cnf_min_fill_order -> dtree_from_cnf -> vtree_from_dtree -> sdd_builder_new -> sdd_builder_compile_cnf -> sdd_wmc
+                //   var_order_new -> ddnnf_builder_new -> ddnnf_builder_compile_cnf_topdown -> bdd_wmc
+                // against the same pipeline through the native API; normalised dyadic weights
+                use rsdd::builder::decision_nnf::{DecisionNNFBuilder, StandardDecisionNNFBuilder};
+                use rsdd::builder::sdd::CompressionSddBuilder;
+                use rsdd::repr::{DTree, Literal, VTree};
+                let mut c = crate::sat_rec::rand_cnf(rng, nv.max(2), 5, 20);
+                c.retain(|cl| !cl.is_empty());
+                if c.is_empty() {
+                    c.push(vec![(0, true), (1, false)]);
+                }
+                let cl: Vec<Vec<Literal>> = c.iter().map(|x| x.iter().map(|(v, p)| Literal::new(vl(*v), *p)).collect()).collect();
+                let ncnf = Cnf::new(&cl);
+                let n = ncnf.num_vars();
+                let ws: Vec<f64> = (0..n).map(|_| rng.below(9) as f64 / 8.0).collect();
+                let perm = rng.perm(n);
+                ev["cnf"] = json!(c.iter().map(|x| x.iter().map(|(v, p)| if *p { *v as i64 + 1 } else { -(*v as i64 + 1) }).collect::<Vec<_>>()).collect::<Vec<_>>());
+                ev["w8"] = json!(ws.iter().map(|w| (w * 8.0) as i64).collect::<Vec<_>>());
+                ev["order"] = json!(perm);
+                let sc = 8f64.powi(n as i32);
+                let params = || WmcParams::<RealSemiring>::new(HashMap::from_iter(ws.iter().enumerate().map(|(i, w)| (vl(i), (RealSemiring(*w), RealSemiring(1.0 - *w))))));
+                let c_cnf = |cl: &Vec<Vec<Literal>>| unsafe {
+                    let mut lits: Vec<Vec<Literal>> = cl.iter().map(|x| x.iter().map(|l| literal_new(l.label(), l.polarity())).collect()).collect();
+                    let cc: Vec<CClause> = lits.iter_mut().map(|x| CClause { vars: x.as_mut_ptr(), len: x.len() }).collect();
+                    cnf_new(cc.as_ptr(), cc.len())
+                };
+                let c_params = || unsafe {
+                    let p = new_wmc_params_f64();
+                    for (i, w) in ws.iter().enumerate() {
+                        wmc_param_f64_set_weight(p, i as u64, *w, 1.0 - *w);
+                    }
+                    p
+                };
+                if op == "sddpipe" {
+                    scalar = Some((
+                        guarded(|| {
+                            let dt = DTree::from_cnf(&ncnf, &ncnf.min_fill_order());
+                            let b = CompressionSddBuilder::new(VTree::from_dtree(&dt).expect("vtree"));
+                            json!([numv(b.compile_cnf(&ncnf).unsmoothed_wmc(&params()).0 * sc)])
+                        }),
+                        cguard(&cctx, || unsafe {
+                            let cnf = c_cnf(&cl);
+                            let vt = vtree_from_dtree(dtree_from_cnf(cnf, cnf_min_fill_order(cnf)));
+                            assert!(!vt.is_null(), "vtree_from_dtree returned NULL");
+                            let b = sdd_builder_new(vt);
+                            json!([numv(sdd_wmc(sdd_builder_compile_cnf(b, cnf), c_params()) * sc)])
+                        }),
+                    ));
+                } else {
+                    scalar = Some((
+                        guarded(|| {
+                            let b = StandardDecisionNNFBuilder::new(VarOrder::new(&perm.iter().map(|v| vl(*v)).collect::<Vec<_>>()));
+                            json!([numv(b.compile_cnf_topdown(&ncnf).unsmoothed_wmc(&params()).0 * sc)])
+                        }),
+                        cguard(&cctx, || unsafe {
+                            let cnf = c_cnf(&cl);
+                            let o: Vec<u64> = perm.iter().map(|v| *v as u64).collect();
+                            let b = ddnnf_builder_new(var_order_new(o.as_ptr(), o.len()));
+                            json!([numv(bdd_wmc(ddnnf_builder_compile_cnf_topdown(b, cnf), c_params()) * sc)])
+                        }),
+                    ));
+                }
             }
             "cnt" => {
                 let a = arg(rng, &npool);
